@@ -303,7 +303,7 @@ Section Preservation.
     - (* Yield *)
       pose proof (regs_inst t y s) as Hi. destruct (inst t y s) as [y' s1]. cbn [snd] in Hi.
       destruct (get_task t s1) as [tk|]; [|exact I].
-      destruct (tk_deps tk ++ futs (extract y')).
+      destruct (futs (extract y')).
       + apply (Inv_of _ _ _ (TC (Some t))); [reflexivity|]. apply (invT_regs _ _ s); [exact HI|]. regs_simpl. exact Hi.
       + apply (Inv_of _ _ _ (TC None)); [reflexivity|]. apply invT_TC_weaken with t.
         apply (invT_regs _ _ s); [exact HI|]. regs_simpl. exact Hi.
